@@ -25,6 +25,7 @@ RULE = (
     "binary combinations exhaustive, ternary sampled; called directly and through {{ l | f: a, b }} renders of an environment whose registry "
     "holds the contracted callables. Plus the split/join round trip rendered through both real filters ({{ s | split: sep | join: sep }} and three equivalent spellings) over 28 strings x 15 separators. Inputs on which the filter raises a Liquid error, and cells the documentation leaves open, are not judged. "
     "Non-trivial = a call whose contract returned a verdict (not 'unspecified'), distinct by (filter, arguments)."
+    " Rounds 5-6 added enumerated families: documented chains (map | compact, sort | map | compact | join, missing keys last) over hash lists with ties, nil values and missing keys; list filters must return a list on documented inputs."
 )
 REQUIRED = [
     ("liquid/utils/text.py", "truncate_chars"),
